@@ -14,7 +14,7 @@ from . import c03
 LEVEL = 'exploration'
 RULE = (
     'sequential: generated sequences of push/pull/peek on both sides over prefixes {None, a, b, a-5, a-, ab, "", '
-    'a-500000000000000} with expiring and file-backed items, mixed with ordinary keys outside every queue key range '
+    'a-500000000000000, q5, w-49, 2025-05 and prefixes with format metacharacters 100%, r%%, p%s, {0}, a{} with expiring and file-backed items, mixed with ordinary keys outside every queue key range '
     '(negative ints, ints >= 10**15, strings no generated prefix range contains, bytes, tuples), through Cache and '
     'Index.push/pull; oracle = one collections.deque per prefix plus a dict: the key returned by push addresses the '
     'item, peek equals the next pull of that side and removes nothing, queues never see each other\'s or ordinary items, '
@@ -28,7 +28,7 @@ ASSUMPTIONS = [
     'ordinary keys that fall lexicographically inside a queue key range are outside the generated domain',
 ]
 
-PREFIXES = [None, 'a', 'b', 'a-5', 'a-', 'ab', '', 'a-500000000000000', 'q5', 'w-49', '2025-05']
+PREFIXES = [None, 'a', 'b', 'a-5', 'a-', 'ab', '', 'a-500000000000000', 'q5', 'w-49', '2025-05', '100%', 'r%%', 'p%s', '{0}', 'a{', 'caf\u00e9 %d']
 ORDINARY = [-5, 10**15, 10**15 + 7, 'zzz', 'b0', b'a', ('a', 1), 'a', 'ab', 0, 999999999999999]
 VALS = [1, 'v', ('B', 3), ('B', 4), None]
 MISS = 'EMPTY'
